@@ -116,6 +116,23 @@ CHECKS = {
         text="Decides D (every exit after the pay RPC: Ok only with COMPLETE's preimage or wait_payment's Some; Err only after wait_payment==Ok(None), FAILED without "
              "partial-completion warning, or wait_payment's propagated error; PENDING and RPC-error arms cannot exit without wait_payment), H (hash passed to wait_payment).",
         note="Not decided: that CLN's `failed` without warning means no part pending.", design="5/C16"),
+    "C17": dict(
+        technique="ADT statelessness table + consume-exactly-once rule on decoders + exactly-once send counting + cancel-safety/lock-scope rules on the driver (MIR)",
+        text="Decides D1 (codecs have no state), D2 (line decoder: Ok(None) leaves the buffer, Some consumes split_to(offset+2) with a whole-buffer search for two newlines; "
+             "JSON layers call the inner decoder once), R1 (per-request task replies exactly once, id = request id, one of result/error), R2 (the raced reader future awaits "
+             "only FramedRead::next; handlers behind spawn), W (all output through the single guarded FramedWrite, awaited under the guard, not raced; frame = text+2 newlines; "
+             "no other stdout writes), P (panic discipline on codec/driver/logging).",
+        note="Not decided: tokio_util Framed* internals; the node's framing.", design="5/C17"),
+    "C19": dict(
+        technique="def-use provenance from option constants to parameter sinks through checked conversions + registered/read set comparison + dominance of the init reply (MIR)",
+        text="Decides W (each sink is cp.option(expected option) via `?`/checked TryInto to the declared width/from_secs/Not only), R (registered superset of read), O (start only when policy "
+             "delta > safety delta, after all conversions), C (retry_for saturating at u16::MAX, forwarded; cltv_delta reaches the max-delay formula), D (one policy aggregate).",
+        note="Not decided: CLN's parsing of option strings; handle_init's as_i64().unwrap() (pre-init, outside handler scope).", design="5/C19"),
+    "C20": dict(
+        technique="who-writes rule through the height guard + dominating comparison + loop-exit reachability on the poll loop (MIR)",
+        text="Decides W (single monotone write under one guard region without await), S (sources: getinfo.blockheight and block_added.height reach the cell only via the update fn; provider "
+             "returns the cell), L (loop exits only via shutdown; poll results continue; constant positive interval; spawned after a successful initial poll), H (subscription wiring).",
+        note="Not decided: the wall-clock bound 'within one interval'.", design="5/C20"),
 }
 
 NOT_APPLICABLE = {}
